@@ -216,8 +216,26 @@ class GuardView:
             x = x[2][0]
         return same_key(x, key)
 
-    def _no_child_scan(self, g, key):
-        """guard `!map.keys().any(|k| k.starts_with(key + "/") [&& !k[prefix.len()..].contains('/')])`: no key is a child"""
+    def _no_child_scan(self, g, key, subst=None):
+        """guard `!map.keys().any(|k| k.starts_with(key + "/") [&& !k[prefix.len()..].contains('/')])`: no key is a child.
+        The scan may sit in a private helper (`!has_children(&map, &prefix)`): then the helper's single return term is
+        looked at with its parameters replaced by the arguments of the call."""
+        if g[0] == "bool" and g[2] is False and g[1][0] == "call" and isinstance(g[1][1], str) and g[1][1] != "Iterator::any" \
+                and self.inter is not None and subst is None:
+            hb = self.inter.body_of_call(g[1])
+            if hb is not None and hb.kind != "Closure" and not (hb.impl and hb.impl.get("trait")) and hb.vis != "pub":
+                cases = self.inter.ret_cases(hb)
+                if len(cases) == 1:
+                    actual = {i: norm(a) for i, a in enumerate(g[1][2])}
+
+                    def sub(t):
+                        if not isinstance(t, tuple):
+                            return t
+                        if t and t[0] == "arg" and len(t) > 3 and t[3] == hb.id and t[1] in actual:
+                            return actual[t[1]]
+                        return tuple(sub(x) for x in t)
+                    return self._no_child_scan(("bool", norm(cases[0][0]), False), key, subst=sub)
+            return False
         if not (g[0] == "bool" and g[2] is False and g[1][0] == "call" and g[1][1] == "Iterator::any" and len(g[1][2]) == 2):
             return False
         src, clo = g[1][2]
@@ -239,9 +257,10 @@ class GuardView:
             sw = None
             for g2 in gs:
                 if g2[0] == "bool" and g2[1][0] == "call" and g2[1][1] == "str::starts_with" and len(g2[1][2]) == 2 and \
-                        self._is_child_prefix(g2[1][2][1], key):
+                        self._is_child_prefix(subst(g2[1][2][1]) if subst else g2[1][2][1], key):
                     sw = g2[2]
-            if c[0] == "call" and c[1] == "str::starts_with" and len(c[2]) == 2 and self._is_child_prefix(c[2][1], key):
+            if c[0] == "call" and c[1] == "str::starts_with" and len(c[2]) == 2 and \
+                    self._is_child_prefix(subst(c[2][1]) if subst else c[2][1], key):
                 saw_true = True   # |k| k.starts_with(prefix): true for every descendant
                 continue
             if c == ("int", 0):
